@@ -61,7 +61,7 @@ func (ctx *Ctx) cloop(node *node, tpl *Tpl, w io.Writer) {
 
 		// Write separator.
 		if c > 0 && len(node.loopSep) > 0 {
-			if _, ctx.Err = w.Write(node.loopSep); ctx.Err != nil {
+			if ctx.Err = tpl.writeRaw(w, node.loopSep, ctx); ctx.Err != nil {
 				return
 			}
 		}
